@@ -6,6 +6,5 @@ Open Scope Z_scope.
 (* roll_one_dim along the outermost axis of a list, from the regenerated shift / no-op test / narrow segments *)
 Definition roll1_gen {A} (s : Z) (l : list A) : list A :=
   let n := Z.of_nat (length l) in
-  let sh := r_shift s n in
-  if r_noop sh n then l
-  else concat (map (fun seg : Z * Z => firstn (Z.to_nat (snd seg)) (skipn (Z.to_nat (fst seg)) l)) (r_segments sh n)).
+  if r_noop s n then l
+  else concat (map (fun seg : Z * Z => firstn (Z.to_nat (snd seg)) (skipn (Z.to_nat (fst seg)) l)) (r_segments s n)).
